@@ -13,6 +13,7 @@
 import MosVerif.Lemmas.StartupLemmas
 import MosVerif.Lemmas.CloseSpec
 import MosVerif.Lemmas.ShutdownLemmas
+import MosVerif.Lemmas.TranslatedC18
 import MosVerif.Generated.Facts
 namespace MosVerif.C18
 
@@ -443,9 +444,10 @@ theorem pins_close :
     the TLS handshake of a tls:// dial and the QUIC handshakes follow the dial context, and the dial contexts of
     the reuse and quic transports derive from the transport's context that Close cancels. -/
 theorem pins_exhaustion_and_dials :
-    Facts.c18_pipeStatus = "{ c.m.RLock() defer c.m.RUnlock() s.Closed = c.closed s.Available = c.nextQid+c.reserved <= 65535 return s }" ∧
-    Facts.c18_pipeEol = "eol := c.nextQid > 65535 && len(c.queue) == 0" ∧
-    Facts.c18_pipeAddQueueEol = "c.nextQid > 65535" ∧
+    -- (the counter tests `c.nextQid > 65535`, `eol := …` and `Available` are tied by translation:
+    --  Lemmas/TranslatedC18.lean `left_zero_translated`, `sweep_cond_translated`, `usable_pipe_translated`)
+    Facts.c18_pipeStatus = "s.Closed = c.closed" ∧
+    Facts.c18_pipeStatusRLock = "c.m.RLock()" ∧ Facts.c18_pipeStatusRUnlock = "defer c.m.RUnlock()" ∧
     Facts.c18_tlsHandshake = "err := tlsConn.HandshakeContext(ctx)" ∧
     Facts.c18_tlsHandshakeCount = 1 ∧
     Facts.c18_h3DialEarly = "return quicTransport.DialEarly(ctx, ua, tlsCfg, cfg)" ∧
